@@ -8,5 +8,11 @@ pub trait ExFromStr: Sized {
     type Err;
     fn from_str(s: &str) -> Result<Self, Self::Err>;
 }
-// nothing is assumed about what `str::parse` returns (only that it returns)
-pub assume_specification<F: std::str::FromStr>[ str::parse::<F> ](s: &str) -> (r: Result<F, <F as std::str::FromStr>::Err>);
+// A13: `parse_spec` is only a NAME for what std's `str::parse::<F>` answers on a text (which texts are numbers is not modelled)
+pub uninterp spec fn parse_spec<F>(s: Seq<char>) -> Option<F>;
+pub assume_specification<F: std::str::FromStr>[ str::parse::<F> ](s: &str) -> (r: Result<F, <F as std::str::FromStr>::Err>)
+    ensures (r matches Ok(v) ==> parse_spec::<F>(s@) == Some(v)), (r is Err ==> parse_spec::<F>(s@) is None);
+// A14: Result::unwrap_or_else (std docs)
+pub assume_specification<T, E, F: FnOnce(E) -> T>[ Result::<T, E>::unwrap_or_else ](r: Result<T, E>, f: F) -> (o: T)
+    requires r matches Err(e) ==> call_requires(f, (e,)),
+    ensures r matches Ok(v) ==> o == v, r matches Err(e) ==> call_ensures(f, (e,), o);
